@@ -217,20 +217,19 @@ class Spec:
         return None
 
     def _const_return(self, t):
-        """value of a call to a local function all of whose return-value definitions are one constant"""
+        """value of a call to a local bool function that returns one constant on every path that is
+        feasible under the current configuration assumption"""
         cache = self.prog.__dict__.setdefault('_const_ret', {})
         for cb in self.prog.lookup(t):
-            if cb.kind not in ('fn', 'assoc_fn') or cb.local_ty(0) != 'bool':
+            if cb.kind not in ('fn', 'assoc_fn') or cb.local_ty(0) != 'bool' or self.depth > 3:
                 return None
-            if cb.id not in cache:
-                vals = set()
-                for d in cb.defs.get(0, []):
-                    if d[0] == 'stmt' and 'use' in d[3] and 'const' in d[3]['use'] and 'int' in d[3]['use']['const']:
-                        vals.add(d[3]['use']['const']['int'])
-                    else:
-                        vals.add(None)
-                cache[cb.id] = vals.pop() if len(vals) == 1 else None
-            return cache[cb.id]
+            key = (cb.id, tuple(sorted(self.fields.items())), tuple(sorted((k, v) for k, v in self.oracles.items() if k[0] == cb.id)))
+            if key not in cache:
+                cache[key] = None  # recursion guard
+                sub = Spec(self.prog, cb, self.fields, oracles=self.oracles, _depth=self.depth + 1)
+                vals = {sub.return_value(n) for n in sub.return_nodes()}
+                cache[key] = vals.pop() if (len(vals) == 1 and not sub.truncated) else None
+            return cache[key]
         return None
 
     def _operand_is_config(self, o, name, depth=0):
